@@ -162,6 +162,11 @@ impl RefRdf {
                 "@type" => for t in v.arr()? { self.out.push(([id.clone(), rdf("type"), Self::id_term(t.str()?)], g.clone())); },
                 "@graph" => { if !top { return Err("@graph below the top level".into()); } for m in v.arr()? { self.node(m, &Some(id.clone()), false)?; } }
                 k if k.starts_with('@') => return Err(format!("unexpected keyword {k}")),
+                // JSON-LD 1.1 "Deserialize JSON-LD to RDF" 8.1.2: a property that is a blank node identifier is
+                // dropped (produceGeneralizedRdf is off); its values are still converted, so that lists below it
+                // would emit their cells -- but nothing reaches the subject
+                k if k.starts_with("_:") => { for item in v.arr()? { let before = self.out.len(); let _ = self.object(item, g)?; self.out.truncate(before); } }
+                k if sophia_iri::IriRef::new(k).is_err() => return Err(format!("property key {k:?} is not an IRI")),
                 k => for item in v.arr()? { let o = self.object(item, g)?; self.out.push(([id.clone(), iri(k), o], g.clone())); },
             }
         }
@@ -508,7 +513,7 @@ fn coq_node(n: &J, lits: &[(String, u64)], i: &mut Intern) -> Result<String, Str
         match k.as_str() {
             "@id" | "@graph" => {}
             "@type" => for t in v.arr()? { types.push(i.id(&RefRdf::id_term(t.str()?)).to_string()); },
-            k => { let vs = v.arr()?.iter().map(|x| coq_val(x, lits, i)).collect::<Result<Vec<_>, _>>()?; props.push(format!("({}, {})", i.id(&iri(k)), coq_list(vs))); }
+            k => { let vs = v.arr()?.iter().map(|x| coq_val(x, lits, i)).collect::<Result<Vec<_>, _>>()?; props.push(format!("({}, {})", i.id(&RefRdf::id_term(k)), coq_list(vs))); }
         }
     }
     Ok(format!("mkJ {id} {} {}", coq_list(types), coq_list(props)))
